@@ -16,7 +16,7 @@ META = {
     'technique': 'exhaustive enumeration of re-prepare histories on the real Session/ResponseFuture vs a reference of the expected frame sequence',
     'text': 'EXECUTE answered UNPREPARED, then the PREPARE answered by {same id, different id, error, connection lost, unexpected '
             'message}, then the re-sent EXECUTE answered by {rows, UNPREPARED again (second round), error}; protocol v4 and v5, with and without a '
-            'per-statement keyspace (v5), session keyspace absent / equal / different; executor task order fixed. '
+            'per-statement keyspace (v5: carried by PREPARE; v4: recorded on the statement object), session keyspace absent / equal / different; executor task order fixed. '
             'Expected: PREPARE with identical query text (and the keyspace on v5) on the same node, then the original EXECUTE on that '
             'node; on id mismatch (which is how a changed session keyspace shows) the request fails with that error and no further frame is sent for it.',
     'note': 'A second UNPREPARED round is followed once more.  Connection loss during the re-prepare lets the request move to the next '
@@ -49,7 +49,15 @@ def play(pv, session_ks, prep, exe, stmt_ks=None):
         srv.on_request = on_req
         if session_ks:
             st.session.set_keyspace(session_ks)
-        ps = st.session.prepare(QUERY, keyspace=stmt_ks) if stmt_ks else st.session.prepare(QUERY)
+        if stmt_ks and pv >= 5:
+            ps = st.session.prepare(QUERY, keyspace=stmt_ks)
+        else:
+            ps = st.session.prepare(QUERY)
+            if stmt_ks:
+                # below v5 the PREPARE cannot carry a keyspace; a statement object that records the keyspace it
+                # was prepared in (public attribute PreparedStatement.keyspace) is what the driver's
+                # "session keyspace no longer matches" guard compares with the connection's keyspace
+                ps.keyspace = stmt_ks
         st.w.settle()
         srv.on_request = None
         srv.hold = st._hold
@@ -127,8 +135,12 @@ def reference(pv, session_ks, prep, exe, stmt_ks=None):
     repeated in the PREPARE.  Without one, a changed session keyspace shows as a different id."""
     h = '10.0.0.1'
     ex = (h, 'EXECUTE', None, None, QID)
-    pr = (h, 'PREPARE', QUERY, stmt_ks, None)
+    pr = (h, 'PREPARE', QUERY, stmt_ks if pv >= 5 else None, None)
     frames = [ex]
+    if pv < 5 and stmt_ks and session_ks != stmt_ks:
+        # the protocol cannot carry the keyspace and the session is no longer in the statement's keyspace:
+        # fails with that error, nothing further is sent
+        return frames, 'ValueError'
     frames.append(pr)
     if prep == 'different_id':
         return frames, 'DriverException'
@@ -159,6 +171,8 @@ def run_chunk(cases):
         if first != ref_frames:
             if len(first) > len(ref_frames) and first[:len(ref_frames)] == ref_frames:
                 kind = 'sent-after-failure' if ref_out not in ('rows', None) else 'extra-frame'
+                if ref_out == 'ValueError':
+                    kind = 'sent-despite-keyspace-mismatch'
             elif [fr[1] for fr in first] == [fr[1] for fr in ref_frames]:
                 kind = 'prepare-content'
             else:
@@ -175,7 +189,7 @@ def run_chunk(cases):
 
 def run(ctx):
     cases = [(pv, sks, p, e, k) for pv in (4, 5) for sks in (None, 'ks1', 'ks2') for p in PREP_ANSWERS for e in EXEC_ANSWERS
-             for k in ((None, 'ks1') if pv >= 5 else (None,))]
+             for k in (None, 'ks1')]
     cases = ctx.rotate(cases)
     n = min(len(cases), ctx.nproc * 2)
     for part in ctx.pmap(run_chunk, [cases[i::n] for i in range(n) if cases[i::n]]):
